@@ -79,6 +79,10 @@ def run(tier):
     def judge(rid, name, src, case, key, out, rout, crash, rcrash, rep=None, mutant=False):
         nonlocal nprog
         nprog += 1
+        if (rcrash or rout is None) and (crash or out is None):
+            # the shared front end kills the process for both (unbounded macro recursion of a mutant, ...): C03/C04's matter
+            chk.count("front_end_died_for_both")
+            return
         if rcrash or rout is None:
             chk.violation(f"the Rust generator killed the process on {name}: {rcrash}\n{src[:1200]}", case, key=key)
             return
